@@ -151,7 +151,19 @@ class PathEnumerator:
             for n in ast.walk(st):
                 if isinstance(n, ast.If):
                     guard_names |= {x.id for x in ast.walk(n.test) if isinstance(x, ast.Name)}
-        self.relevant |= {g for g in guard_names if top_once.get(g) == 1}
+        galias = {g for g in guard_names if top_once.get(g) == 1}
+        # ... and, transitively, the once-assigned names their definitions read (`is_plain = is_heat_only and plant_type not in X`)
+        for _ in range(4):
+            more: Set[str] = set()
+            for st0 in self.stmts:
+                for st in ast.walk(st0):
+                    if isinstance(st, ast.Assign) and len(st.targets) == 1 and isinstance(st.targets[0], ast.Name) \
+                            and st.targets[0].id in galias:
+                        more |= {x.id for x in ast.walk(st.value) if isinstance(x, ast.Name) and top_once.get(x.id) == 1}
+            if more <= galias:
+                break
+            galias |= more
+        self.relevant |= galias
 
     # ---- backward slice: which names can influence the targets
     def _slice(self, targets: Set[str]) -> Set[str]:
